@@ -86,7 +86,7 @@ def make_target(target_fn: Callable) -> Callable:
     """
     if _config.PASS_CONTEXTVARS:
         ctx = copy_context()
-        return lambda: ctx.run(target_fn)
+        return lambda *args, **kwargs: ctx.run(target_fn, *args, **kwargs)
 
     return target_fn
 
